@@ -36,6 +36,7 @@ fn main() {
         "bundle" => bundle::run(seed, n, replay, &mut out),
         "util" => cutil::run(seed, n, replay, &mut out),
         "C25" => c25::run(seed, n, replay, &mut out),
+        "C01" | "evm" => c01::run(seed, n, replay, &mut out),
         other => {
             eprintln!("unknown component {other}");
             std::process::exit(2);
